@@ -221,7 +221,7 @@ CLAIMED = {
          "_computeMasterSupports (box narrowing with the running best-ratio dict) and _computeDeltaWeights; theorems for ANY number of "
          "masters and axes: a support is 1 at its own master and 0 at every earlier master, hence interpolating the deltas with the scalars "
          "of all supports at master k gives master k (hypotheses: distinct locations inside the axis ranges, fewer axes first -- checked on "
-         "what VariationModel passes to the computation). Master sorting beyond that, gvar/HVAR/MVAR/CFF2/GPOS merging and avar construction are checked "
+         "what VariationModel passes to the computation); the master order itself (getMasterLocationsSortKeyFunc + sorted, axisOrder listing every axis) is modelled and tied by exact correspondence, and proved to put fewer axes first and to lose nothing, which discharges the ordering hypothesis (model_reproduces_masters_in_model_order). gvar/HVAR/MVAR/CFF2/GPOS merging and avar construction are checked "
          "on the implementation: generated designspaces (axis maps, intermediate/corner/sparse masters, sources in random order, TrueType and "
          "CFF, per-master kerning exceptions, anchors, metrics) built with varLib.build and compared through HarfBuzz at every master's "
          "user-space location (testing).",
